@@ -50,3 +50,8 @@ def rules(ctx):
     C05.r_meta_items(ctx)
     fr.r_tmp_apply(ctx)
     fr.r_selector(ctx)
+    # "followed by a successful build": Ok must mean that no storage error and no cancellation was swallowed on the way --
+    # a poll answered `true` that merely stops a loop leaves a half-updated forest behind an Ok (C10's error discipline)
+    from props import C10
+    C10.r_err(ctx)
+    C10.r_cancel(ctx)
